@@ -23,6 +23,10 @@ const (
 	maxFieldIndexesCount     = 256
 	maxSelectCasesCount      = 65536
 
+	// Maximum number of parameters plus results of a function type, that is
+	// the limit of the reflect package.
+	maxFuncParametersCount = 128
+
 	// Types.
 	maxTypesCount = 256
 
